@@ -246,6 +246,11 @@ func (c *Ctx) handleViolation(job SymJob, v gosym.Violation, key string) {
 		// the native run tripped over a vacuity guard of the harness, not over the property
 		status = "not-confirmed"
 	}
+	if status == "reproduced" && strings.TrimSpace(msg) != strings.TrimSpace(v.What) {
+		// the same inputs fail natively, but on another assertion than in the engine: the two
+		// disagree about what happens on this path, so neither is believed
+		status = "failed-differently"
+	}
 	rf.Native = status + ": " + msg
 	WriteJSON(path, rf)
 	switch status {
